@@ -26,7 +26,6 @@ from __future__ import annotations
 import asyncio
 import base64
 import io
-import itertools
 import os
 import random
 import re
@@ -54,7 +53,7 @@ LEVEL_TEXT = (
 RULE = (
     "a case = (start origin, method, body kind, secret sources, max_redirects, jar presets, script of redirect steps "
     "(status, Location form, target origin, directory, response body kind, Set-Cookie)); systematic: all chains of <=2 steps "
-    "over 5 statuses x 6 methods x 26 step kinds with body kind / secret sources rotated; random beyond; non-trivial = at least "
+    "over 5 statuses x 6 methods x 28 step kinds (16 followable Location form/target pairs, 12 terminal: 4 invalid, 6 non-HTTP, missing, empty) with body kind / secret sources rotated; random beyond; non-trivial = at least "
     "one redirect response was received by the client; distinct by case description"
 )
 ASSUMPTIONS = [
@@ -90,6 +89,7 @@ METHODS = ["GET", "HEAD", "POST", "PUT", "DELETE", "PATCH"]
 BODY_KINDS = ["none", "bytes", "bytes-clhdr", "str", "form", "form-multipart", "bytesio", "asyncgen", "file", "unseekable"]
 NOT_REPLAYABLE = {"asyncgen", "unseekable"}
 MAXR = [1, 2, 3, 10]
+GENERIC_CT = "application/octet-stream"  # what aiohttp documents as the default type of bytes-like / empty payloads
 
 INVALID_LOCATIONS = ["http://[::1", "http:///p/h9", "http://b.test:99999999/p/h9", "http://:/"]
 NONHTTP_LOCATIONS = ["ftp://b.test/p/h9", "mailto:someone@b.test", "javascript:alert(1)", "file:///etc/passwd", "ws://b.test/p/h9", "data:text/plain,hi"]
@@ -121,7 +121,7 @@ JAR_PRESETS = [
 
 def origin_prefix(o):
     scheme, host, port = o
-    return f"{scheme}://{host}" + ("" if DEFAULT_PORT[scheme] == port else f":{port}")
+    return f"{scheme}://{host}" + ("" if port is None or DEFAULT_PORT.get(scheme) == port else f":{port}")
 
 
 def relation(frm, to):
@@ -212,12 +212,14 @@ def body_bytes(kind):
     return b"BODY-" + kind.encode() + b"-" + b"0123456789" * 7
 
 
-def walk(case, hops, steps):
-    """Independent walk of the script: expected (method, body-kept?) per hop and the set of acceptable ways to end.
-    Table (docs/client_quickstart.rst warning on 307/308 + CHANGES 'preserving the request body ... per RFC 9110 15.4',
-    RFC 9110 15.4.2-15.4.4, 15.4.8-9): 303 -> GET (HEAD stays HEAD) without body; 301/302 + POST -> GET without body;
-    everything else keeps method and body; a body that cannot be replayed makes a body-keeping redirect fail with
-    ClientPayloadError."""
+def walk(case, hops, steps, n_logged=0):
+    """Independent walk of the script: expected (method, body-kept?) per hop, the set of acceptable ways to end, and the
+    number of requests.  Table (docs/client_quickstart.rst warning on 307/308 + CHANGES 'preserving the request body ...
+    per RFC 9110 15.4'; RFC 9110 15.4.2-15.4.4, 15.4.8-9): 303 -> GET (HEAD stays HEAD) without body; 301/302 + POST -> GET
+    without body; everything else keeps method and body.  A body that cannot be replayed: a body-keeping redirect either
+    fails with ClientPayloadError (documented) or - should the client manage to replay it - goes on with the *whole*
+    body; which of the two happened is read off the number of logged requests (`n_logged`), the body of the next hop is
+    judged like any other."""
     method = case["method"].upper()
     has_body = case["body"] != "none"
     exp = [{"method": method, "body": has_body}]
@@ -233,18 +235,23 @@ def walk(case, hops, steps):
         if redirects >= maxr:
             ends.add("TooManyRedirects")
         s = st["status"]
+        may_refuse = False
         if (s == 303 and method != "HEAD") or (s in (301, 302) and method == "POST"):
             method, has_body = "GET", False
         elif s == 303:
-            has_body = False  # HEAD stays HEAD; a retrieval request carries no content (grey for aiohttp, see run_case)
+            # HEAD stays HEAD.  Whether content a caller attached to a HEAD survives a 303 is not in any table (grey):
+            # from here on the body of this chain is not judged.
+            has_body = None if has_body or has_body is None else False
         elif has_body and case["body"] in NOT_REPLAYABLE:
-            ends.add("ClientPayloadError")
+            may_refuse = True
         if st["cls"] == "invalid":
             ends.add("InvalidUrlRedirectClientError")
         elif st["cls"] == "nonhttp":
             ends.add("NonHttpUrlRedirectClientError")
         elif st["cls"] == "missing":
             ends.add("returns-3xx")
+        if may_refuse and (ends or n_logged <= k + 1):
+            ends.add("ClientPayloadError")
         if ends:
             return exp, ends, k + 1
         exp.append({"method": method, "body": has_body})
@@ -302,13 +309,42 @@ class World17:
         self.hops, self.steps = make_plan(case)
         self.reqlog = []  # every request any origin received, in order
         self.connlog = []  # every connection the client opened: (origin, key.is_ssl)
+        self.servers = []
         self.bad = []
 
     def factory(self, req):
         u = req.url
         origin = (u.scheme, u.host, u.port)
         self.connlog.append({"origin": origin, "ssl": bool(req.connection_key.is_ssl), "after_requests": len(self.reqlog)})
-        return OriginServer(self, origin, len(self.connlog) - 1)
+        srv = OriginServer(self, origin, len(self.connlog) - 1)
+        self.servers.append(srv)
+        return srv
+
+    def partial_requests(self):
+        """Requests whose head arrived completely but whose announced body never did (the origin is still waiting)."""
+        out = []
+        for srv in self.servers:
+            if srv.consumed >= len(srv.buf):
+                continue
+            try:
+                R.read_request(bytes(srv.buf), srv.consumed)
+            except R.Incomplete as i:
+                pm = i.partial if isinstance(i.partial, R.Msg) else None
+                if pm is not None and pm.head_end:
+                    mt = _HOP.search(pm.target)
+                    out.append(
+                        {
+                            "origin": srv.origin,
+                            "hop": int(mt.group(1)) if mt else None,
+                            "method": pm.method.decode("latin-1"),
+                            "target": pm.target.decode("latin-1"),
+                            "fields": [(a.decode("latin-1"), b.decode("latin-1")) for a, b in pm.fields],
+                            "received_body": len(srv.buf) - pm.head_end,
+                        }
+                    )
+            except R.Reject:
+                pass
+        return out
 
     def on_request(self, srv, m, raw):
         mt = _HOP.search(m.target)
@@ -349,10 +385,21 @@ class World17:
         if ent["method"] == "HEAD":
             framed = b""
         head = f"HTTP/1.1 {status} {REASON[status]}\r\n" + "\r\n".join(hdr) + "\r\n\r\n"
+        rest = b""
+        if rb in ("stalled", "slow") and framed and not (st["cls"] in ("missing", "final", "unscripted")):
+            # the redirect response's body is still on its way when the client decides to follow
+            framed, rest = framed[: len(framed) // 2], framed[len(framed) // 2 :]
         if srv.transport is not None and not srv.transport.is_closing():
             srv.transport.write(head.encode("latin-1") + framed)
             if rb == "close":
                 srv.transport.close()
+            elif rest and rb == "slow":
+
+                def later(tr=srv.transport, rest=rest):
+                    if not tr.is_closing():
+                        tr.write(rest)
+
+                self.loop.call_later(0.5, later)
 
 
 class Unseekable(io.RawIOBase):
@@ -554,7 +601,9 @@ def run_case(case, rec):
             except Exception:
                 pass
         captured = list(loop.captured)
+        partial = w.partial_requests()
         w.W.close()
+    out["partial"] = partial
     return check_case(case, w, secs, out, captured, rec)
 
 
@@ -562,7 +611,9 @@ def check_case(case, w, secs, out, captured, rec):
     v = []
     hops, steps = w.hops, w.steps
     log = w.reqlog
-    exp, ends, n_expected = walk(case, hops, steps)
+    n = len(log)
+    exp, ends, n_expected = walk(case, hops, steps, n)
+    end_step = steps[n_expected - 1] if n_expected - 1 < len(steps) else {"cls": "final", "status": 200}
     kind = case["body"]
     known = body_bytes(kind)
     if w.bad:
@@ -573,8 +624,8 @@ def check_case(case, w, secs, out, captured, rec):
     for e in log:
         hay = e["raw"].decode("latin-1")
         dec = []
-        for n, val in e["fields"]:
-            if n.lower() in ("authorization", "proxy-authorization") and val[:6].lower() == "basic ":
+        for nm, val in e["fields"]:
+            if nm.lower() in ("authorization", "proxy-authorization") and val[:6].lower() == "basic ":
                 try:
                     dec.append(base64.b64decode(val[6:].strip() + "=" * (-len(val[6:].strip()) % 4)).decode("latin-1"))
                 except Exception:
@@ -588,7 +639,7 @@ def check_case(case, w, secs, out, captured, rec):
                 if any(tuple(p["origin"]) != tuple(e["origin"]) for p in log[: e["n"]]) and s["kind"] != "location-credentials":
                     rec.count("info:caller-secret-re-sent-at-own-origin-after-a-detour(A->B->A)")
                 continue
-            where = next((n for n, val in e["fields"] if any(nd in val for nd in s["needles"])), None)
+            where = next((nm for nm, val in e["fields"] if any(nd in val for nd in s["needles"])), None)
             where = where or ("target" if any(nd in e["target"] for nd in s["needles"]) else "body")
             v.append(
                 (
@@ -597,7 +648,6 @@ def check_case(case, w, secs, out, captured, rec):
                     f"in {where} of request #{e['n']} ({e['method']} {e['target']})",
                 )
             )
-    # a detour that came back without the secret (the common, allowed, outcome)
     if len(log) >= 3 and secs:
         o0 = tuple(log[0]["origin"])
         for e in log[2:]:
@@ -613,34 +663,37 @@ def check_case(case, w, secs, out, captured, rec):
     for e in log:
         url = origin_prefix(e["origin"]) + e["target"].split("#")[0]
         want = {c.name: c.value for c in store.cookies_for(url)}
-        got_pairs = parse_cookie_pairs([val for n, val in e["fields"] if n.lower() == "cookie"])
-        got = {n: val for n, val in got_pairs if n not in CALLER_COOKIE_NAMES}
-        if len(got) != len([1 for n, _ in got_pairs if n not in CALLER_COOKIE_NAMES]):
+        got_pairs = parse_cookie_pairs([val for nm, val in e["fields"] if nm.lower() == "cookie"])
+        got = {nm: val for nm, val in got_pairs if nm not in CALLER_COOKIE_NAMES}
+        if len(got) != len([1 for nm, _ in got_pairs if nm not in CALLER_COOKIE_NAMES]):
             v.append(("jar:duplicate-cookie-name-sent", f"request #{e['n']} to {url}: {got_pairs}"))
         if want:
             rec.count("hops-with-jar-cookies-expected")
-        for n in sorted(set(got) - set(want)):
-            if prev_sel.get(n) == got[n]:
-                v.append(("jar:cookie-not-reselected", f"request #{e['n']} to {url} carries {n}={got[n]} which was selected for the previous hop but does not belong to this URL (reference selection {sorted(want)})"))
+        for nm in sorted(set(got) - set(want)):
+            if prev_sel.get(nm) == got[nm]:
+                v.append(("jar:cookie-not-reselected", f"request #{e['n']} to {url} carries {nm}={got[nm]} which was selected for the previous hop but does not belong to this URL (reference selection {sorted(want)})"))
             else:
-                v.append(("jar:cookie-unexpected", f"request #{e['n']} to {url} carries {n}={got[n]}; reference selection {sorted(want)}"))
-        for n in sorted(set(want) - set(got)):
-            v.append(("jar:cookie-missing", f"request #{e['n']} to {url} lacks {n}={want[n]} (reference selection {sorted(want)}, got {sorted(got)})"))
-        for n in sorted(set(want) & set(got)):
-            if want[n] != got[n]:
-                v.append(("jar:cookie-value-differs", f"request #{e['n']} to {url}: {n}={got[n]!r}, reference {want[n]!r}"))
+                v.append(("jar:cookie-unexpected", f"request #{e['n']} to {url} carries {nm}={got[nm]}; reference selection {sorted(want)}"))
+        for nm in sorted(set(want) - set(got)):
+            v.append(("jar:cookie-missing", f"request #{e['n']} to {url} lacks {nm}={want[nm]} (reference selection {sorted(want)}, got {sorted(got)})"))
+        for nm in sorted(set(want) & set(got)):
+            if want[nm] != got[nm]:
+                v.append(("jar:cookie-value-differs", f"request #{e['n']} to {url}: {nm}={got[nm]!r}, reference {want[nm]!r}"))
         prev_sel = got
         k = e["hop"]
         spec = case["script"][k] if k is not None and k < len(case["script"]) else {}
         if spec.get("setc") and k < len(steps) and steps[k]["status"] != 200:
             store.set_cookie(f"s{k}=SET{k}.{e['origin'][1]}; Path=/" + (spec["setc"] if isinstance(spec["setc"], str) else ""), url)
 
-    # ---- (3) method / body table ----------------------------------------------------------------------------
+    # ---- (3) method / body table: the first divergence of a chain is the finding, what follows is its consequence ------
+    table_bad = False
     body0 = log[0]["body"] if log else b""
     if log and known is not None and kind != "none" and body0 != known:
-        # the very first request must carry the caller's body, else nothing below means anything
         v.append(("method-table:first-request-body-differs", f"hop 0 carried {len(body0)} bytes, caller supplied {len(known)}"))
+        table_bad = True
     for e in log:
+        if table_bad:
+            break
         k = e["hop"]
         if k is None or k >= len(exp) or e["n"] != k:
             continue  # surplus / out-of-order requests are judged under (4)
@@ -650,94 +703,142 @@ def check_case(case, w, secs, out, captured, rec):
         if e["method"] != want["method"]:
             what = "kept-method" if k and e["method"] == exp[k - 1]["method"] else "changed-method"
             v.append((f"method-table:{tag}-{what}", f"hop {k} after {prev_status}: method {e['method']}, table says {want['method']} (previous {exp[k - 1]['method'] if k else None})"))
-        names = {n.lower() for n, _ in e["fields"]}
-        cl = next((val for n, val in e["fields"] if n.lower() == "content-length"), None)
-        if want["body"]:
+            table_bad = True
+            break
+        names = {nm.lower() for nm, _ in e["fields"]}
+        cl = next((val for nm, val in e["fields"] if nm.lower() == "content-length"), None)
+        if want["body"] is None:
+            rec.count("grey:HEAD-with-body-after-303(body not judged)")
+        elif want["body"]:
             ref = body0 if k else (known if known is not None else body0)
             if e["body"] != ref:
-                if case["method"].upper() == "HEAD" and prev_status == 303:
-                    rec.count("grey:HEAD-with-body-after-303")
-                else:
-                    how = "empty" if not e["body"] else ("truncated" if ref.startswith(e["body"]) else "different")
-                    v.append((f"method-table:{tag}-body-{how}", f"hop {k} after {prev_status}: body of {len(e['body'])} bytes, expected the caller's {len(ref)} bytes (body kind {kind})"))
+                how = "empty" if not e["body"] else ("truncated" if ref.startswith(e["body"]) else "different")
+                v.append((f"method-table:{tag}-body-{how}", f"hop {k} after {prev_status}: body of {len(e['body'])} bytes, expected the caller's {len(ref)} bytes (body kind {kind})"))
+                table_bad = True
             else:
                 rec.count("body-carried-to-hop" if k else "body-at-first-hop")
+                if k and kind in NOT_REPLAYABLE:
+                    rec.count("info:not-replayable-body-was-replayed-in-full")
         else:
             if e["body"]:
-                if case["method"].upper() == "HEAD" and prev_status == 303:
-                    rec.count("grey:HEAD-with-body-after-303")
-                else:
-                    v.append((f"method-table:{tag}-kept-body", f"hop {k} after {prev_status}: {e['method']} still carries {len(e['body'])} body bytes (body kind {kind})"))
-            elif k and exp[0]["body"] and not (case["method"].upper() == "HEAD" and prev_status == 303 and e["body"] == b""):
-                bad = sorted(names & {"content-type", "transfer-encoding", "content-encoding"})
+                v.append((f"method-table:{tag}-kept-body", f"hop {k} after {prev_status}: {e['method']} still carries {len(e['body'])} body bytes (body kind {kind})"))
+                table_bad = True
+            elif k and exp[0]["body"]:
+                # the headers that described / framed the dropped body must not travel on: Transfer-Encoding, a non-zero
+                # Content-Length, and the Content-Type that hop 0 derived from the body.
+                bad = sorted(names & {"transfer-encoding", "content-encoding"})
                 if cl not in (None, "0"):
                     bad.append("content-length")
+                ct = next((val for nm, val in e["fields"] if nm.lower() == "content-type"), None)
+                ct0 = next((val for nm, val in log[0]["fields"] if nm.lower() == "content-type"), None)
+                if ct is not None:
+                    if ct == GENERIC_CT:
+                        # P-EMPTY-PAYLOAD-HEADERS: a body-less request may carry `Content-Length: 0` and the generic default
+                        # type of an empty payload; that says nothing about the dropped body and the statement does not
+                        # forbid it (client_reqrep.py "set default content-type"; RFC 9110 8.3/8.6 allow both on a message
+                        # without content).  Counted, not judged.
+                        rec.count("profile:P-EMPTY-PAYLOAD-HEADERS(content-type of an empty payload on a body-less hop)")
+                    elif ct == ct0 or ct.split(";")[0] == (ct0 or "").split(";")[0]:
+                        bad.append("content-type")
+                    else:
+                        bad.append("content-type-unexplained")
                 for h in bad:
-                    v.append((f"method-table:dropped-body-header-sent:{h}", f"hop {k} after {prev_status}: body was dropped but {h} is still sent ({[f for f in e['fields'] if f[0].lower() == h]})"))
+                    v.append((f"method-table:dropped-body-header-sent:{h}", f"hop {k} after {prev_status}: body was dropped but {h} is still sent ({[f for f in e['fields'] if f[0].lower() in (h, 'content-type')]})"))
+                    table_bad = True
                 rec.count("body-dropped-at-hop")
+            elif k and (cl not in (None, "0") or "transfer-encoding" in names):
+                v.append(("method-table:framing-header-on-bodyless-hop", f"hop {k}: no body ever existed, yet {[f for f in e['fields'] if f[0].lower() in ('content-length', 'transfer-encoding')]}"))
+                table_bad = True
+            if want["body"] is False and e["method"] in ("GET", "HEAD") and (cl == "0" or "content-type" in names):
+                rec.count("info:GET/HEAD-hop-carries-empty-payload-headers(Content-Length:0/Content-Type)")
         if "#" in e["target"]:
             rec.count("info:fragment-in-request-target")
 
-    # ---- (4)+(5) termination, outcome -----------------------------------------------------------------------
-    n = len(log)
+    # ---- (4)+(5) termination, refused targets, outcome ------------------------------------------------------
+    got_end = out.get("exc") or ("returns-3xx" if out.get("status") in STATUSES else "ok")
+    stalled = out.get("partial") or []
+    walk_bad = table_bad  # the independent walk and the client no longer talk about the same chain
     if n > case["maxr"]:
-        v.append(("too-many-requests", f"{n} requests were made with max_redirects={case['maxr']}"))
-    refused = steps[-1]["cls"] in ("invalid", "nonhttp") if steps else False
-    if n > n_expected:
-        if refused:
-            v.append((f"non-http-target-contacted:{steps[-1]['cls']}", f"request #{n_expected} {log[n_expected]['method']} {log[n_expected]['target']} at {log[n_expected]['origin']} after Location {steps[-1]['location']!r}"))
-        elif n <= case["maxr"]:
-            v.append(("outcome:request-after-the-chain-should-have-ended", f"{n} requests, the script ends after {n_expected} ({sorted(ends)})"))
-    if refused:
-        late = [c for c in w.connlog if c["after_requests"] >= n_expected]
-        if late:
-            v.append((f"non-http-target-contacted:{steps[-1]['cls']}:connection-opened", f"connection to {late[0]['origin']} opened after Location {steps[-1]['location']!r}"))
+        v.append(("too-many-requests", f"{n} requests were made with max_redirects={case['maxr']} (end: {got_end})"))
+        walk_bad = True
     for i, e in enumerate(log[: len(hops)]):
         if tuple(e["origin"]) != tuple(hops[i]["origin"]) or e["target"].split("#")[0] != hops[i]["path"] + ("?" + hops[i]["query"] if hops[i]["query"] else ""):
             v.append(("outcome:hop-went-elsewhere", f"request #{i} went to {origin_prefix(e['origin'])}{e['target']}, Location resolves to {hops[i]['url']}"))
+            walk_bad = True
             break
     for c in w.connlog:
         if c["ssl"] != (c["origin"][0] == "https"):
             v.append(("outcome:connection-key-scheme-mismatch", f"{c}"))
-    got_end = out.get("exc") or ("returns-3xx" if out.get("status") in STATUSES else "ok")
-    if got_end not in ends:
-        if got_end == "ClientPayloadError" and kind not in NOT_REPLAYABLE:
-            v.append(("method-table:replayable-body-refused", f"ClientPayloadError ({out.get('exc_text')}) for body kind {kind}; acceptable ends {sorted(ends)}"))
-        elif got_end in ("ok", "returns-3xx") and ends <= {"TooManyRedirects"}:
-            v.append(("too-many-requests:no-TooManyRedirects", f"call returned status {out.get('status')} after {n} requests with max_redirects={case['maxr']}"))
-        elif got_end in ("ok", "returns-3xx") and ends & {"InvalidUrlRedirectClientError", "NonHttpUrlRedirectClientError"}:
-            v.append((f"non-http-target-not-refused:{steps[-1]['cls']}", f"call returned status {out.get('status')} for Location {steps[-1]['location']!r}"))
-        else:
-            v.append((f"outcome:{got_end}-instead-of-{'|'.join(sorted(ends))}", f"{out.get('exc_text') or out.get('status')}; {n} requests; script {[(s['status'], s['cls']) for s in steps]}"))
-    elif n < n_expected:
-        v.append(("outcome:fewer-requests-than-the-chain", f"{n} requests, chain has {n_expected}; end {got_end}"))
+    if not walk_bad:
+        refused = end_step["cls"] in ("invalid", "nonhttp")
+        if refused:
+            late = [c for c in w.connlog if c["after_requests"] >= n_expected]
+            if n > n_expected:
+                x = log[n_expected]
+                v.append((f"non-http-target-contacted:{end_step['cls']}", f"request #{n_expected} {x['method']} {x['target']} at {x['origin']} after Location {end_step['location']!r}"))
+                walk_bad = True
+            elif late:
+                v.append((f"non-http-target-contacted:{end_step['cls']}", f"connection to {late[0]['origin']} opened after Location {end_step['location']!r}"))
+                walk_bad = True
+        elif n > n_expected:
+            v.append(("outcome:request-after-the-chain-should-have-ended", f"{n} requests, the script ends after {n_expected} ({sorted(ends)})"))
+            walk_bad = True
+    if not walk_bad:
+        if stalled and got_end not in ends:
+            # an origin is still waiting for a body the client announced but never sent: the call can only time out
+            p = stalled[0]
+            k = p["hop"]
+            cl = next((val for nm, val in p["fields"] if nm.lower() == "content-length"), None)
+            if k is not None and k < len(exp) and not exp[k]["body"]:
+                v.append(("method-table:dropped-body-header-sent:content-length", f"hop {k}: {p['method']} {p['target']} announces Content-Length {cl} but the body was dropped; {p['received_body']} body bytes arrived, the origin waits, the call ends with {got_end}"))
+            else:
+                v.append(("wire:request-body-shorter-than-announced", f"hop {k}: {p['method']} {p['target']} Content-Length {cl}, {p['received_body']} body bytes arrived; call ends with {got_end}"))
+            walk_bad = True
+        elif got_end not in ends:
+            walk_bad = True
+            if got_end == "ClientPayloadError" and kind not in NOT_REPLAYABLE:
+                v.append(("method-table:replayable-body-refused", f"ClientPayloadError ({out.get('exc_text')}) for body kind {kind}; acceptable ends {sorted(ends)}"))
+            elif got_end in ("ok", "returns-3xx") and "TooManyRedirects" in ends and not (ends & {"returns-3xx", "ok"}):
+                v.append(("too-many-requests:no-TooManyRedirects", f"call returned status {out.get('status')} after {n} requests with max_redirects={case['maxr']}"))
+            elif got_end in ("ok", "returns-3xx") and end_step["cls"] in ("invalid", "nonhttp"):
+                v.append((f"non-http-target-not-refused:{end_step['cls']}", f"call returned status {out.get('status')} for Location {end_step['location']!r}"))
+            else:
+                v.append((f"outcome:unexpected-{got_end}", f"{out.get('exc_text') or out.get('status')}; acceptable {sorted(ends)}; {n} requests; script {[(s['status'], s['cls']) for s in steps]}"))
+        elif n < n_expected:
+            v.append(("outcome:fewer-requests-than-the-chain", f"{n} requests, chain has {n_expected}; end {got_end}"))
+            walk_bad = True
 
-    # ---- (6) history and release ------------------------------------------------------------------------------
-    if "history" in out:
+    # ---- (6) history (only judged when the chain itself went as the script says) and release ---------------------
+    if "history" in out and not walk_bad:
         n_red = n_expected if got_end != "ok" else n_expected - 1
         want_hist = [(steps[i]["status"], hops[i]["url"]) for i in range(min(n_red, len(hops)))]
         got_hist = [(s, u) for s, u, _m in out["history"]]
+        hist_bad = False
         if got_end == "returns-3xx" and out.get("self_in_history") and got_hist == want_hist:
             v.append(("history-mismatch:returned-response-listed-in-its-own-history", f"the {out['status']} response without Location is returned and is also the last element of its history {got_hist}"))
         elif got_end == "returns-3xx":
             if got_hist != want_hist[:-1]:
+                hist_bad = True
                 v.append(("history-mismatch", f"history {got_hist}, chain {want_hist[:-1]}"))
         elif got_hist != want_hist:
+            hist_bad = True
             v.append(("history-mismatch", f"history {got_hist}, chain {want_hist}"))
         if got_end == "ok" and (out["status"], out["url"]) != (200, hops[n_expected - 1]["url"]):
             v.append(("history-mismatch:final-response", f"final {(out['status'], out['url'])}, chain ends at {hops[n_expected - 1]['url']}"))
-        if got_end == "ok" and out.get("body") != (b"" if exp[n_expected - 1]["method"] == "HEAD" else b"FINAL-%d" % (n_expected - 1)):
+        elif got_end == "ok" and out.get("body") != (b"" if exp[n_expected - 1]["method"] == "HEAD" else b"FINAL-%d" % (n_expected - 1)):
             v.append(("history-mismatch:final-body", f"{out.get('body')!r}"))
-        if got_end == "TooManyRedirects" and out.get("exc_request_url") != hops[0]["url"]:
-            v.append(("history-mismatch:TooManyRedirects-request-info", f"{out.get('exc_request_url')} vs {hops[0]['url']}"))
-        for i, (_s, _u, m) in enumerate(out["history"]):
-            if i < len(exp) and m != exp[i]["method"]:
-                v.append(("history-mismatch:method", f"history[{i}].method {m}, request was {exp[i]['method']}"))
-        if out.get("history_unreleased"):
-            v.append(("connection-not-released:history-response-holds-connection", f"history items {out['history_unreleased']} still hold a connection"))
-    if out.get("acquired"):
+        if not hist_bad:
+            if got_end == "TooManyRedirects" and out.get("exc_request_url") != hops[0]["url"]:
+                v.append(("history-mismatch:TooManyRedirects-request-info", f"{out.get('exc_request_url')} vs {hops[0]['url']}"))
+            for i, (_s, _u, m) in enumerate(out["history"]):
+                if i < len(exp) and m != exp[i]["method"]:
+                    v.append(("history-mismatch:method", f"history[{i}].method {m}, request was {exp[i]['method']}"))
+                    break
+    if out.get("history_unreleased"):
+        v.append(("connection-not-released:history-response-holds-connection", f"history items {out['history_unreleased']} still hold a connection (end {got_end})"))
+    elif out.get("acquired"):
         v.append(("connection-not-released", f"{out['acquired']} connection(s) still acquired at quiescence (end {got_end}, {n} requests)"))
-    if out.get("open_outside_pool"):
+    if out.get("open_outside_pool") and not out.get("acquired"):
         v.append(("connection-not-released:transport-open-outside-pool", f"{out['open_outside_pool']} open transport(s) neither acquired nor pooled (end {got_end})"))
     if out.get("open_after_close"):
         v.append(("connection-not-released:transport-open-after-session-close", f"{out['open_after_close']}"))
@@ -784,13 +885,14 @@ def step_of(status, kind, i=0):
     return st
 
 
+RBODY = ["short", "none", "chunked", "stalled", "long", "close", "slow"]  # how the redirect response's own body arrives
 SECRET_ROT = [
     {"auth": "hdr", "cookie": "hdr", "pauth": "hdr", "reqc": True},
     {"auth": "sess", "cookie": "sess", "pauth": "sess", "reqc": True},
     {"auth": "url", "cookie": "hdr", "pauth": "sess", "reqc": True},
     {"auth": "hdr2", "cookie": "sess", "pauth": "hdr", "reqc": False},
 ]
-BODY_FOR = {"GET": ["none"], "HEAD": ["none"], "POST": BODY_KINDS[1:], "PUT": BODY_KINDS[1:], "PATCH": BODY_KINDS[1:], "DELETE": ["none", "bytes", "asyncgen"]}
+BODY_FOR = {"GET": ["none", "none", "bytes"], "HEAD": ["none", "none", "none", "bytes"], "POST": BODY_KINDS[1:], "PUT": BODY_KINDS[1:], "PATCH": BODY_KINDS[1:], "DELETE": ["none", "bytes", "asyncgen"]}
 
 
 def systematic_cases(length):
@@ -822,7 +924,7 @@ def fill(case, i, start="A"):
     case.setdefault("jar", list(range(len(JAR_PRESETS))))
     for j, st in enumerate(case["script"]):
         if st["st"] != 200:
-            st.setdefault("rbody", ["short", "none", "chunked", "long", "close"][(i + j) % 5])
+            st.setdefault("rbody", RBODY[(i + j) % len(RBODY)])
             st.setdefault("setc", (i + j) % 4 == 0)
     return case
 
@@ -839,7 +941,7 @@ def random_case(rng):
             if rng.random() < 0.35:  # bias towards coming back (A->B->A) and staying
                 kind = rng.choice([("abs", "A"), ("abs", "A"), ("rel-path", None), ("abs", "B"), ("abs-cred", "A")])
         st = step_of(rng.choice(STATUSES), kind, rng.randint(0, 1))
-        st["rbody"] = rng.choice(["short", "none", "chunked", "long", "close"])
+        st["rbody"] = rng.choice(RBODY)
         sc = rng.random()
         st["setc"] = True if sc < 0.2 else ("; Domain=a.test" if sc < 0.3 else False)
         script.append(st)
@@ -866,12 +968,12 @@ def random_case(rng):
 
 def shards(tier, seed):
     q = tier == "quick"
-    out = [{"kind": "len1", "sub": 0}]
-    parts = 11 if q else 24
+    out = [{"kind": "len1", "sub": 0, "start": "A"}, {"kind": "len1", "sub": 1, "start": "B"}]
+    parts = 10 if q else 24
     for i in range(parts):
-        out.append({"kind": "len2", "sub": 1 + i, "part": i, "parts": parts, "stride": 8 if q else 1})
+        out.append({"kind": "len2", "sub": 2 + i, "part": i, "parts": parts, "stride": 4 if q else 1})
     for i in range(4 if q else 40):
-        out.append({"kind": "random", "sub": 100 + i, "n": 1500 if q else 30000})
+        out.append({"kind": "random", "sub": 100 + i, "n": 1500 if q else 25000})
     return out
 
 
@@ -880,13 +982,12 @@ def run_shard(spec, rec):
         kind = spec["kind"]
         if kind == "len1":
             for i, c in systematic_cases(1):
-                for start in ("A", "B"):
-                    case = fill(dict(c, script=[dict(s) for s in c["script"]]), i, start)
-                    v, obs, log = run_case(case, rec)
-                    report(rec, case, v, obs, log)
-                if i % 150 == 0:
+                case = fill(c, i, spec["start"])
+                v, obs, log = run_case(case, rec)
+                report(rec, case, v, obs, log)
+                if i % 300 == 0:
                     rec.sample(sample_of(case, obs, log))
-            rec.set_exhaustive("chains of 1 redirect: status x method x Location kind x max_redirects{1,10} x start{A,B}", True)
+            rec.set_exhaustive(f"chains of 1 redirect from {spec['start']}: status x method x Location kind x max_redirects{{1,10}}", True)
         elif kind == "len2":
             stride = spec["stride"]
             off = spec["seed"] % stride
